@@ -661,6 +661,7 @@ TOOLS = ["mean", "var", "std", "sum", "nanmean", "nanvar", "nanstd", "nansum", "
          "histogram", "histogram2d", "histogramdd"]
 MODELS = ["GaussianNB", "KMeans", "StandardScaler", "LinearRegression", "LinearRegression-nointercept",
           "LinearRegression-multi", "LinearRegression-multi-nointercept", "RandomForestClassifier", "DecisionTreeClassifier",
+          "DecisionTreeClassifier-nocheck",
           "PCA", "LogisticRegression", "LogisticRegression-multiclass"]
 
 
@@ -728,7 +729,7 @@ def make_model(name, case):
     if name == "RandomForestClassifier":
         return M.RandomForestClassifier(n_estimators=2 if seq == "warm_start" else 3, epsilon=eps, bounds=b,
                                         classes=None if case.get("partial") == "bounds" else case["classes"], max_depth=3, random_state=seed, warm_start=seq == "warm_start", accountant=_acc())
-    if name == "DecisionTreeClassifier":
+    if name.startswith("DecisionTreeClassifier"):
         return M.DecisionTreeClassifier(max_depth=3, epsilon=eps, bounds=b,
                                         classes=None if case.get("partial") == "bounds" else case["classes"], random_state=seed,
                                         accountant=_acc())
@@ -775,7 +776,7 @@ def model_outputs(name, m, case):
         for t in m.estimators_:
             out += _tree_state(t)
         return out
-    if name == "DecisionTreeClassifier":
+    if name.startswith("DecisionTreeClassifier"):
         return [m.predict_proba(probe)] + _tree_state(m)
     if name == "PCA":
         return [m.components_, m.explained_variance_, m.singular_values_, m.mean_]
@@ -801,6 +802,8 @@ def run_model(name, X, y, case):
                 m.partial_fit(Xs)
         elif name in UNSUPERVISED:
             m.fit(Xs)
+        elif name == "DecisionTreeClassifier-nocheck":
+            m.fit(np.ascontiguousarray(Xs, dtype=float), np.asarray(ys), check_input=False)      # public keyword of fit
         else:
             m.fit(Xs, ys)
     if reuse:
@@ -890,6 +893,24 @@ import collections
 INFO = collections.Counter()
 
 
+WIDENING = ("quantile", "percentile", "median", "KMeans")
+
+
+def ref_bounds(case):
+    """the clipping domain: the declared bounds, except that check_bounds(min_separation=1e-5) of quantile / percentile / median /
+    KMeans replaces a feature narrower than 1e-5 by mid -+ 5e-6 (checked separately to be no wider than that)"""
+    lo, hi = case["lower"], case["upper"]
+    if case["name"] not in WIDENING:
+        return lo, hi
+    L = np.atleast_1d(np.asarray(lo, dtype=float)).copy()
+    U = np.atleast_1d(np.asarray(hi, dtype=float)).copy()
+    for j in range(L.size):
+        if U[j] - L[j] < 1e-5:
+            mid = (U[j] + L[j]) / 2
+            L[j], U[j] = mid - 1e-5 / 2, mid + 1e-5 / 2
+    return (L.tolist(), U.tolist()) if isinstance(lo, list) else (float(L[0]), float(U[0]))
+
+
 def _e2e_case_result(case):
     name = case["name"]
     D = np.array(unjson(case["D"]), dtype=float)
@@ -905,8 +926,8 @@ def _e2e_case_result(case):
             keep = keep.all(axis=1) if D.ndim == 2 else keep
             Dc = D[keep]
         else:
-            Dc = ref_clip(D, case["lower"], case["upper"]) if D.ndim == 2 else \
-                np.minimum(np.maximum(D, case["lower"]), case["upper"])
+            rl, ru = ref_bounds(case)
+            Dc = ref_clip(D, rl, ru) if D.ndim == 2 else np.minimum(np.maximum(D, rl), ru)
         (k1, o1), (k2, o2) = _run_pair(lambda X: run_tool(name, X, case), typed(D, dt), Dc)
     else:
         y = np.array(unjson(case["y"])) if case.get("y") is not None else None
@@ -914,7 +935,7 @@ def _e2e_case_result(case):
             Dc = ref_norm_image(D, case["c"])
             yc = y
         else:
-            Dc = ref_clip(D, case["lower"], case["upper"])
+            Dc = ref_clip(D, *ref_bounds(case))
             yc = y
             if name.startswith("LinearRegression"):
                 yc = ref_clip(y, case["ylower"], case["yupper"]) if y.ndim == 2 else \
@@ -1062,7 +1083,7 @@ def gen_e2e_case(r, name, family):
     L = np.broadcast_to(np.asarray(lo, dtype=float), (d,))
     U = np.broadcast_to(np.asarray(hi, dtype=float), (d,))
     case["probe"] = [[r.uniform(L[j] - 1, U[j] + 1) for j in range(d)] for _ in range(6)]
-    if name in ("GaussianNB", "RandomForestClassifier", "DecisionTreeClassifier"):
+    if name in ("GaussianNB", "RandomForestClassifier", "DecisionTreeClassifier", "DecisionTreeClassifier-nocheck"):
         y = [i % 2 for i in range(n)]
         r.shuffle(y)
         case["y"] = y
@@ -1205,6 +1226,77 @@ def add_reuse(r, case):
     return case
 
 
+DEGENERATE_TOOLS = ["mean", "var", "std", "sum", "nanmean", "nanvar", "nanstd", "nansum", "quantile", "median", "percentile"]
+DEGENERATE_MODELS = ["GaussianNB", "KMeans", "StandardScaler", "LinearRegression", "LinearRegression-nointercept", "LinearRegression-multi",
+                     "RandomForestClassifier", "DecisionTreeClassifier", "DecisionTreeClassifier-nocheck"]
+
+
+def add_degenerate(r, case):
+    """degenerate per-feature bounds - zero-width features among ordinary ones, all features zero-width, a width of one ulp -
+    with records above AND below the degenerate value and records exactly ON a bound / a midpoint (where split thresholds of
+    the trees are drawn)"""
+    D = np.array(case["D"], dtype=float)
+    per = isinstance(case["lower"], list)
+    d = len(case["lower"]) if per else 1
+    all_zero = r.chance(0.2)
+    f32 = case["name"] in ("RandomForestClassifier", "DecisionTreeClassifier")
+    lo, hi, kinds = [], [], []
+    for j in range(d):
+        v = r.choice([0.0, 1.0, -2.5, r.uniform(-5, 5), float(r.randint(-3, 3))])
+        k = "zero" if all_zero else r.choice(["zero", "zero", "ulp", "ordinary", "ordinary"])
+        kinds.append(k)
+        if f32:
+            # the forest / tree cast the data to float32: bounds that float32 cannot represent make cast-then-clip and
+            # clip-then-cast differ by a float32 rounding (an artefact of the cast, visible only for widths of a few float64 ulps)
+            v = float(np.float32(v))
+            u = v if k == "zero" else float(v + np.spacing(np.float32(v)) * r.randint(1, 2)) if k == "ulp" else \
+                float(np.float32(v + r.choice([1.0, 9.0, r.uniform(0.1, 4.0)])))
+        else:
+            u = v if k == "zero" else gen.offset_ulps(v, r.randint(1, 2)) if k == "ulp" else v + r.choice([1.0, 9.0, r.uniform(0.1, 4.0)])
+        lo.append(v)
+        hi.append(u)
+    if all(k == "ordinary" for k in kinds):
+        j = r.randint(0, d - 1)
+        kinds[j], hi[j] = "zero", lo[j]
+    cols = D.shape[1] if D.ndim == 2 else 1
+    X = np.empty((D.shape[0], cols))
+    for i in range(X.shape[0]):
+        for c in range(cols):
+            j = c if per else 0
+            l, u = lo[j], hi[j]
+            w = (u - l) or 1.0
+            m = r.u01()
+            if m < 0.3:
+                X[i, c] = r.choice([l, u, (l + u) / 2, l + (u - l) / 4])
+            elif m < 0.55:
+                X[i, c] = u + r.choice([float(np.spacing(abs(u) or 1.0)), 1e-9, 0.5, 2.0, 50.0, w * r.uniform(0, 3)])
+            elif m < 0.8:
+                X[i, c] = l - r.choice([float(np.spacing(abs(l) or 1.0)), 1e-9, 0.5, 2.0, 50.0, w * r.uniform(0, 3)])
+            else:
+                X[i, c] = r.uniform(l, u)
+    case["lower"], case["upper"] = (lo, hi) if per else (lo[0], hi[0])
+    case["D"] = X.tolist() if D.ndim == 2 else X.ravel().tolist()
+    case["bkind"] = "degenerate-" + "".join(k[0] for k in kinds)
+    if "probe" in case:
+        L = np.broadcast_to(np.array(lo), (cols,))
+        U = np.broadcast_to(np.array(hi), (cols,))
+        case["probe"] = [[r.choice([L[c], U[c], (L[c] + U[c]) / 2, L[c] - 1.0, U[c] + 1.0, r.uniform(L[c] - 1, U[c] + 1)]) for c in range(cols)]
+                         for _ in range(8)]
+    return case
+
+
+def gen_degenerate_case(r, name, family):
+    for _ in range(20):
+        case = gen_e2e_case(r, name, family)
+        if family == "tool" and case.get("bkind") == "offset":
+            continue
+        if family == "model" and not isinstance(case["lower"], list):
+            case["lower"] = [case["lower"]] * len(case["D"][0])
+            case["upper"] = [case["upper"]] * len(case["D"][0])
+        return add_degenerate(r, case)
+    return add_degenerate(r, case)
+
+
 PARTIAL_MODELS = {"LinearRegression": ["X", "y"], "LinearRegression-nointercept": ["X", "y"], "LinearRegression-multi": ["X", "y"],
                   "LinearRegression-multi-nointercept": ["X", "y"], "RandomForestClassifier": ["bounds"],
                   "DecisionTreeClassifier": ["bounds"]}
@@ -1319,6 +1411,20 @@ FIXED_E2E += [
 ]
 
 
+FIXED_E2E += [
+    # a zero-width feature among ordinary ones: records above the degenerate value must reach the trees clipped
+    {"family": "model", "name": "RandomForestClassifier", "eps": 1.0, "seed": 3, "lower": [0.0, 1.0], "upper": [10.0, 1.0], "classes": [0, 1],
+     "bkind": "degenerate-oz", "D": [[float(i % 10), 3.0 if i % 3 == 0 else 1.0] for i in range(30)], "y": [i % 2 for i in range(30)],
+     "probe": [[2.0, 1.0], [7.0, 1.0], [5.0, 3.0], [5.0, 0.0]]},
+    {"family": "model", "name": "DecisionTreeClassifier-nocheck", "eps": 1.0, "seed": 3, "lower": [0.0, 1.0], "upper": [10.0, 1.0], "classes": [0, 1],
+     "bkind": "degenerate-oz", "D": [[float(i % 10), 3.0 if i % 3 == 0 else 1.0] for i in range(30)], "y": [i % 2 for i in range(30)],
+     "probe": [[2.0, 1.0], [7.0, 1.0], [5.0, 3.0], [5.0, 0.0]]},
+    {"family": "model", "name": "DecisionTreeClassifier-nocheck", "eps": 1.0, "seed": 8, "lower": [0.0, 0.0], "upper": [1.0, 1.0], "classes": [0, 1],
+     "bkind": "scalar", "D": [[(i * 0.37) % 1.0, (i * 0.53) % 1.0] for i in range(24)] + [[5.0, -3.0], [-2.0, 0.5], [0.5, 9.0]],
+     "y": [i % 2 for i in range(27)], "probe": [[0.2, 0.2], [0.8, 0.8], [0.5, 0.1]]},
+]
+
+
 def check_e2e(ctx):
     r = ctx.fork("e2e")
     per_tool = ctx.budget(40, 400)
@@ -1333,6 +1439,9 @@ def check_e2e(ctx):
         if name == "histogramdd":
             for _ in range(max(2, per_tool // 3)):
                 cases.append(gen_histdd_partial(r))
+        if name in DEGENERATE_TOOLS:
+            for _ in range(max(2, per_tool // 4)):
+                cases.append(gen_degenerate_case(r, name, "tool"))
     for name in MODELS:
         for _ in range(per_model):
             cases.append(gen_e2e_case(r, name, "model"))
@@ -1345,6 +1454,9 @@ def check_e2e(ctx):
         if name in PARTIAL_MODELS:
             for _ in range(max(2, per_model // 2)):
                 cases.append(add_partial(r, gen_e2e_case(r, name, "model")))
+        if name in DEGENERATE_MODELS:
+            for _ in range(max(3, per_model // 2)):
+                cases.append(gen_degenerate_case(r, name, "model"))
         if name in REUSE_MODELS:
             for _ in range(max(3, per_model // 2)):
                 cases.append(add_reuse(r, gen_e2e_case(r, name, "model")))
